@@ -243,13 +243,13 @@ def zlib_crc(text):
     return zlib.crc32(str(text).encode())
 
 
-def write_foreign(f, path, strings=False):
+def write_foreign(f, path, strings=False, flavour='NETCDF4'):
     """the content of the in-memory file f written with netCDF4 directly, the
     way other tools write archive files: float data variables PACKED (int16
     with scale_factor / add_offset), masks as _FillValue.  What the file
     holds afterwards (packing is lossy) is what a check snapshots."""
     import netCDF4
-    ds = netCDF4.Dataset(path, 'w', format='NETCDF4')
+    ds = netCDF4.Dataset(path, 'w', format=flavour)
     try:
         for k, dm in f.dimensions.items():
             ds.createDimension(k, None if dm.isunlimited() else len(dm))
@@ -277,8 +277,16 @@ def write_foreign(f, path, strings=False):
                 sc = np.float32((hi - lo) / 60000.) if hi > lo else \
                     np.float32(1)
                 off = np.float32((hi + lo) / 2.)
-                nv = ds.createVariable(k, 'i2', tuple(v.dimensions),
-                                       fill_value=-32767)
+                # int16 storage delivers float32; int32 storage with float32
+                # attributes delivers float64
+                wide = zlib_crc('w' + k) % 3 == 0
+                if wide:
+                    sc = np.float32((hi - lo) / 2e9) if hi > lo else \
+                        np.float32(1)
+                nv = ds.createVariable(k, 'i4' if wide else 'i2',
+                                       tuple(v.dimensions),
+                                       fill_value=-2147483647 if wide
+                                       else -32767)
                 nv.setncatts(atts)
                 nv.scale_factor = sc
                 nv.add_offset = off
